@@ -43,6 +43,7 @@ def run(ctx):
         s["family"] = "slow-close"
         s["expectAll"] = {"0": False, "1": False}
         s["steps"] = [{"op": "sleep", "ms": rnd.choice([5, 25, 45, 70])}, {"op": "async_close_pc", "part": 0}, {"op": "close_pc_again", "part": 0}]
+    slow += cc.leaderless_scenarios(plain, rnd, 6 if quick else 40)
     mr = ctx.need(ctx.tlc("Consumer", "Consumer.quick.cfg" if quick else "Consumer.thorough.cfg", timeout=1500, name="consumer-mc"),
                   "consumer pipeline model")
     cviols, cstats, ctrace, ccases = cc.run_scenarios(ctx, ccs + slow, name="c12cons")
